@@ -17,3 +17,10 @@ package identity
 //@   ensures @no_effects len(calls) == old(len(calls))
 //@   loop 1 invariant @no_effects len(calls) == old(len(calls))
 //@   loop 1 invariant @idx 0 <= rangeindex + 1 && rangeindex + 1 <= len(f64s)
+
+// The tag-map identity is a hash: nothing but "no effects" may be relied on
+// (two different tag maps can have the same identity).
+//@ func StringStringMap
+//@   property C13
+//@   trusted
+//@   ensures @no_effects len(calls) == old(len(calls))
